@@ -197,7 +197,8 @@ def safe_callable_names(root: ast.Module) -> Collection[str]:
             if core.match_template(
                 child, ast.FunctionDef(name=("__init__", "__post_init__", "__new__"))
         )}
-        if not constructors - safe_callable_nodes:
+        # What a base class or metaclass does when an instance is created is not known here
+        if not constructors - safe_callable_nodes and not node.bases and not node.keywords:
             safe_callables.add(node.name)
 
     return safe_callables
